@@ -14,7 +14,7 @@ ROOTS = [TAKE, TAKE_FROM, TAKE_SPLIT, DISPLAY, CTX]
 ASSUMPTIONS = [
     "one inductive step of Input::slice (through take / take_from / take_split) from an arbitrary state: line, column, offset and the context fields are free usize variables (bounded only so that the step does not overflow), the remaining text has <= 4 (thorough 6) characters, each either a symbolic ASCII character or a concrete multi-byte character, the cut position ranges over every byte index; a sequence of slices is covered by induction",
     "renderings: ReportData numbers are free variables (context_start_line < 1000 to bound the digit-count forks of ilog10); the text handed to contextualize is a concrete 3-line sample with every (context_start_offset <= offset) pair on it",
-    "where a corrupted token is reported (jobs lexpos-*): lexer::asn_spec - nom combinators, the ErrorTree merging (or / append, whose alternative order depends on VecDeque capacities, modelled after RawVec's growth policy) and the conversion to ReportData - runs from real MIR (dump of /verif/pipe-harness) on 2 fixed modules (LF and CRLF, 3 assignments each, a comment) with one junk character, symbolic over {% ~ ` $ ? # backslash}, inserted after or replacing the first character after every white-space gap outside comments: the result must be Err with an offset inside [first token of the malformed unit, junk character] and line = 1 + line breaks before the offset; every MIR run is compared with the native compiler's report for the solver's character (differential validation of the error-tree model)",
+    "where a corrupted token is reported (jobs lexpos-*): lexer::asn_spec - nom combinators, the ErrorTree merging (or / append, whose alternative order depends on VecDeque capacities, modelled after RawVec's growth policy) and the conversion to ReportData - runs from real MIR (dump of /verif/pipe-harness) on 2 fixed modules (LF and CRLF, 3 assignments each, a comment) with one junk character, symbolic over {% ~ ` $ ? # backslash}, inserted after or replacing the first character after every white-space gap outside comments, or with the text truncated after a whole token (followed by one symbolic white-space character): the result must be Err with an offset inside [first token of the malformed unit, junk character] and line = 1 + line breaks before the offset; every MIR run is compared with the native compiler's report for the solver's character (differential validation of the error-tree model)",
 ]
 NL = 10
 
@@ -79,11 +79,16 @@ def job_lexpos(prog, chk, mi, k, n, tier):
         rd = ir.f(kind.fields[0])
         return ('err', ir.get(rd, 'offset'), ir.get(rd, 'line'), ir.get(rd, 'column'))
     try:
-        for kind in ('insert', 'replace'):
+        for kind in ('insert', 'replace', 'truncate'):
             for p in positions[k::n]:
                 c = z3.BitVec('j', 32)
                 if kind == 'insert':
                     chars = [ord(x) for x in mod[:p + 1]] + [c, 32] + [ord(x) for x in mod[p + 1:]]
+                    jpos = p + 1
+                elif kind == 'truncate':
+                    # the text ends after a whole token (followed by one symbolic white-space character): the rest of the
+                    # module - at least its END - is missing, the first impossible position is the end of the input
+                    chars = [ord(x) for x in mod[:p]] + [c]
                     jpos = p + 1
                 else:
                     # the first character of the token after the gap is replaced
@@ -92,8 +97,8 @@ def job_lexpos(prog, chk, mi, k, n, tier):
                 unit = max(s0 for s0 in starts if s0 <= jpos)
                 sig = f"C17 lexer position module {mi} {kind} in unit@{unit}"
 
-                def run(ex, chars=chars):
-                    ex.assume(z3.Or([c == j for j in JUNK]))
+                def run(ex, chars=chars, kind=kind):
+                    ex.assume(z3.Or([c == j for j in (JUNK if kind != 'truncate' else (32, 10, 9))]))
                     return outcome(ex, ex.call(fn, [mk_unit(ex, chars)]))
                 for r in chk.explore(run):
                     if r.kind == 'panic':
